@@ -45,6 +45,8 @@ pub fn syntax_cfg(tier: Tier) -> Cfg {
     T2::Unwrap("b".into(), vec![]),
     T2::EnumRef("g".into(), vec![]),
     T2::Name("m".into(), vec![t1(name("int"))]),
+    T2::Unwrap("m".into(), vec![t1(name("int"))]),
+    T2::EnumRef("m".into(), vec![t1(name("int")), t1(text("a"))]),
   ];
   if tier == Tier::Thorough {
     atoms.extend([
@@ -55,8 +57,6 @@ pub fn syntax_cfg(tier: Tier) -> Cfg {
       raw("h'01 ff'"),
       T2::Lit(Lit::Text("a\nb".into())),
       T2::Name("m".into(), vec![t1(name("int")), t1(text("a"))]),
-      T2::Unwrap("m".into(), vec![t1(name("int"))]),
-      T2::EnumRef("m".into(), vec![t1(name("int"))]),
       name("$$g"),
     ]);
   }
